@@ -22,7 +22,7 @@ Definition nv_s1 : source :=
     SOpAssign vx BSub (EBin BMul (EInt 5) (EInt 2));
     SPrint (EVar vx) ].
 Example C01_nv_stage1 :
-  ok_block false [] nv_s1 = true /\
+  ok_block [] false [] nv_s1 = true /\
   vm_out nv_s1 200 = (fst (run 200 nv_s1), Done) /\ snd (run 200 nv_s1) = RODone /\
   fst (run 200 nv_s1) = [[118; 61; 55]; [45; 51]]%N.
 Proof. vm_compute. repeat split. Qed.
@@ -33,7 +33,7 @@ Definition nv_s1f : source :=
     SAssert (EBin BLt (EVar vx) (EInt 2)) [115%N; 112%N];
     SPrint (EInt 99) ].
 Example C01_nv_stage1_fail :
-  ok_block false [] nv_s1f = true /\
+  ok_block [] false [] nv_s1f = true /\
   run 200 nv_s1f = ([[51%N]], ROFail (FAssert [115%N; 112%N])) /\
   vm_out nv_s1f 200 = ([[51%N]], RuntimeErr (E_assert [115%N; 112%N]) [LFun (s_module_fn nvp)]).
 Proof. vm_compute. repeat split. Qed.
@@ -52,7 +52,7 @@ Definition nv_s2 : source :=
         SPrint (EVar vacc) ];
     SPrint (EVar vacc) ].
 Example C01_nv_stage2 :
-  ok_block false [] nv_s2 = true /\
+  ok_block [] false [] nv_s2 = true /\
   vm_out nv_s2 2000 = (fst (run 2000 nv_s2), Done) /\ snd (run 2000 nv_s2) = RODone /\
   length (fst (run 2000 nv_s2)) = 8.
 Proof. vm_compute. repeat split. Qed.
@@ -71,7 +71,7 @@ Definition nv_s3 : source :=
         SPrint (EBin BMul (EVar vi) (EVar vx)) ];
     SPrint (EVar vi) ].
 Example C01_nv_stage3 :
-  ok_block false [] nv_s3 = true /\
+  ok_block [] false [] nv_s3 = true /\
   vm_out nv_s3 5000 = (fst (run 5000 nv_s3), Done) /\ snd (run 5000 nv_s3) = RODone /\
   fst (run 5000 nv_s3) = [[49]; [57]; [49; 54]; [103; 116]; [50; 53]; [54]]%N.
 Proof. vm_compute. repeat split. Qed.
@@ -91,7 +91,7 @@ Definition nv_s4 : source :=
         SPrint (EBin BAdd (EBin BAdd (EVar vi) (EStr [58%N])) (EVar vacc)) ];
     SPrint (EVar vacc) ].
 Example C01_nv_stage3_from :
-  ok_block false [] nv_s4 = true /\
+  ok_block [] false [] nv_s4 = true /\
   vm_out nv_s4 5000 = (fst (run 5000 nv_s4), Done) /\ snd (run 5000 nv_s4) = RODone /\
   length (fst (run 5000 nv_s4)) = 4.
 Proof. vm_compute. repeat split. Qed.
